@@ -155,3 +155,73 @@ def install(engine):
         return ObjV(App("INDEX", (run.raw(st, args[0]),), REF), "vsg.token_map.New")
 
     engine.spec_funcs["INDEX"] = INDEX
+
+HOMS.update(
+    {
+        # text of a token list with one "\n" per carriage_return token, and of a list of lines
+        "textnl": dict(elem=ITEM, ctx=[], result="str", unit="('\\n' if isinstance(x, parser.carriage_return) else x.value)"),
+        "linescr": dict(elem="list[%s]" % ITEM, ctx=[], result="str", unit="text(x) + '\\n'"),
+        "joinnl": dict(elem="str", ctx=[], result="str", unit="x + '\\n'"),
+        "n_cr_in": dict(elem="list[%s]" % ITEM, ctx=[], result="int", unit="ncr(x)"),
+    }
+)
+
+ENDS_WITH_CR = "len({T}) == 0 or isinstance({T}[len({T}) - 1], parser.carriage_return)"
+
+CONTRACTS.update(
+    {
+        "vsg.vhdlFile.vhdlFile.split_on_carriage_return": dict(
+            types={"lObjects": "list[%s]" % ITEM},
+            requires=[ENDS_WITH_CR.format(T="lObjects")],
+            returns="list[list[%s]]" % ITEM,
+            locals={"lReturn": "list[list[%s]]" % ITEM, "lMyObjects": "list[%s]" % ITEM},
+            ensures=[
+                # the lines, each followed by a line break, spell exactly the token list; no line contains a line break
+                "linescr(result) == textnl(lObjects)",
+                "n_cr_in(result) == 0",
+                "len(result) == ncr(lObjects)",
+            ],
+            loops={
+                1: dict(
+                    invariant=[
+                        "linescr(lReturn) + text(lMyObjects) == textnl(lObjects[:_i])",
+                        "n_cr_in(lReturn) == 0 and ncr(lMyObjects) == 0",
+                        "len(lReturn) == ncr(lObjects[:_i])",
+                        "implies(_i > 0 and isinstance(lObjects[_i - 1], parser.carriage_return), len(lMyObjects) == 0)",
+                        "implies(_i == 0, len(lMyObjects) == 0)",
+                        "iLine == 1 + len(lReturn)",
+                    ]
+                )
+            },
+        ),
+        "vsg.vhdlFile.vhdlFile.vhdlFile.get_lines": dict(
+            requires=[ENDS_WITH_CR.format(T="self.lAllObjects")],
+            returns="list[str]",
+            locals={"lReturn": "list[str]"},
+            ensures=[
+                # emitting: line k+1 is the concatenation of the values of the tokens of line k, nothing added or lost
+                "len(result) == 1 + ncr(self.lAllObjects)",
+                "result[0] == ''",
+                "joinnl(result[1:]) == textnl(self.lAllObjects)",
+            ],
+            defines=["result == LINES(self)"],
+            loops={1: dict(invariant=["len(lReturn) == 1 + _i", "lReturn[0] == ''", "joinnl(lReturn[1:]) == linescr(_it[:_i])"])},
+        ),
+    }
+)
+
+FIELDS.update({"vsg.parser.item.has_tab": "bool", "vsg.parser.item.indent": "opt[int]", "vsg.parser.item.iId": "opt[int]"})
+HOMS["values"] = dict(elem=ITEM, ctx=[], result="list[str]", unit="[x.value]")
+
+CONTRACTS.update(
+    {
+        # line classifiers: they replace raw items one for one and keep every value (C04b: parsing is lossless)
+        "vsg.vhdlFile.classify.whitespace.classify": dict(
+            types={"lTokens": "list[str]", "lObjects": "list[%s]" % ITEM},
+            requires=["values(lObjects) == lTokens", "forall(lambda k: len(lTokens[k]) >= 1, 0, len(lTokens))"],
+            modifies=["lObjects", "heap:item.has_tab"],
+            ensures=["values(lObjects) == lTokens", "len(lObjects) == len(lTokens)"],
+            loops={1: dict(invariant=["values(lObjects) == lTokens", "len(lObjects) == len(lTokens)"])},
+        ),
+    }
+)
